@@ -51,6 +51,10 @@ var kinds = []kindInfo{
 	{schema.GroupVersionKind{Group: "example.com", Version: "v1", Kind: "Widget"}, "widgets", true, false},
 	{schema.GroupVersionKind{Group: "rbac.authorization.k8s.io", Version: "v1", Kind: "ClusterRole"}, "clusterroles", false, true},
 	{schema.GroupVersionKind{Group: "", Version: "v1", Kind: "Pod"}, "pods", true, true},
+	// workloads whose status readers look up GENERATED objects (Deployment > ReplicaSet > Pod)
+	// through the cluster reader: only used by the unschedulable:generated scripts
+	{schema.GroupVersionKind{Group: "apps", Version: "v1", Kind: "Deployment"}, "deployments", true, true},
+	{schema.GroupVersionKind{Group: "apps", Version: "v1", Kind: "ReplicaSet"}, "replicasets", true, true},
 }
 
 const (
@@ -58,6 +62,8 @@ const (
 	kCRD    = 1
 	kWidget = 4
 	kPod    = 6
+	kDeploy = 7
+	kRS     = 8
 )
 
 // ---- a dynamic client that honours request contexts -------------------------------
@@ -161,7 +167,18 @@ const variantSlow = 6
 // variantPodReady = Running and Ready (Current)
 const variantUnsched = 7
 const variantPodReady = 8
+
+// variantPodPending = Pending without any condition yet (InProgress, but not unschedulable)
+const variantPodPending = 10
 const slowAnnotation = "verif.c16/slow-status-read"
+
+// variantErr: like variant 0, but the status computation of this version FAILS
+// with an ordinary (non-context) error, as a built-in reader does when a cluster
+// lookup is refused.  The handlers must turn that into the one fatal error event
+// and stop; the version itself is never reported (model: a payload without an
+// event, followed by the SFail step the script places right after it).
+const variantErr = 9
+const errAnnotation = "verif.c16/failing-status-read"
 
 // slowStatusReader wraps the default reader; see variantSlow.
 type slowStatusReader struct {
@@ -175,6 +192,10 @@ func (r *slowStatusReader) ReadStatusForObject(ctx context.Context, reader engin
 		<-ctx.Done()
 		atomic.AddInt64(r.act, 1)
 		return nil, ctx.Err()
+	}
+	if obj.GetAnnotations()[errAnnotation] == "true" {
+		atomic.AddInt64(r.act, 1)
+		return nil, fmt.Errorf("status read of %s refused", obj.GetName())
 	}
 	return r.StatusReader.ReadStatusForObject(ctx, reader, obj)
 }
@@ -190,18 +211,32 @@ func buildObject(o oid, variant int) *unstructured.Unstructured {
 	if variant == variantSlow {
 		u.SetAnnotations(map[string]string{slowAnnotation: "true"})
 	}
+	if variant == variantErr {
+		u.SetAnnotations(map[string]string{errAnnotation: "true"})
+	}
 	cond := func(t, s string) {
 		_ = unstructured.SetNestedSlice(u.Object, []interface{}{
 			map[string]interface{}{"type": t, "status": s, "reason": "r", "message": "m"},
 		}, "status", "conditions")
 	}
+	if o.gk == kDeploy || o.gk == kRS {
+		// one desired replica, no status yet (InProgress); selects the pods / replica
+		// sets labelled app=x of its namespace
+		u.SetLabels(map[string]string{"app": "x"})
+		_ = unstructured.SetNestedField(u.Object, int64(1), "spec", "replicas")
+		_ = unstructured.SetNestedStringMap(u.Object, map[string]string{"app": "x"}, "spec", "selector", "matchLabels")
+		return u
+	}
 	if o.gk == kPod {
+		u.SetLabels(map[string]string{"app": "x"})
 		u.SetCreationTimestamp(metav1.NewTime(time.Now()))
 		_ = unstructured.SetNestedSlice(u.Object, []interface{}{
 			map[string]interface{}{"name": "c", "image": "nginx"}}, "spec", "containers")
 		if variant == variantPodReady {
 			_ = unstructured.SetNestedField(u.Object, "Running", "status", "phase")
 			cond("Ready", "True")
+		} else if variant == variantPodPending {
+			_ = unstructured.SetNestedField(u.Object, "Pending", "status", "phase")
 		} else {
 			_ = unstructured.SetNestedField(u.Object, "Pending", "status", "phase")
 			_ = unstructured.SetNestedSlice(u.Object, []interface{}{
@@ -270,7 +305,7 @@ func payloadTerm(o oid, variant int) string {
 			def = fmt.Sprintf("(Some %d)", kWidget)
 		}
 	}
-	return fmt.Sprintf("(mkPayload %s %s %s)", st, def, emit.Bool(variant == variantSlow))
+	return fmt.Sprintf("(mkPayload %s %s %s)", st, def, emit.Bool(variant == variantSlow || variant == variantErr))
 }
 
 // ---- RESTMapper with a resettable cache -------------------------------------------
@@ -431,6 +466,25 @@ type rscript struct {
 	// statuses the DELAYED re-check (status.ScheduleWindow after an unschedulable
 	// pod was seen) must report after the "tick" step, per object
 	late map[oid][]string
+}
+
+// preReadErrors: watched objects that exist when Watch is called and whose status
+// read fails: the initial listing reports the fatal error before any sync (the
+// generators only put such objects under kinds that are served and not gated by
+// a watched Namespace / CRD object).
+func (sc *rscript) preReadErrors() int {
+	n := 0
+	for _, p := range sc.pre {
+		if p.variant != variantErr {
+			continue
+		}
+		for _, w := range sc.watched {
+			if w == p.id {
+				n++
+			}
+		}
+	}
+	return n
 }
 
 type revent struct {
@@ -672,6 +726,7 @@ func runReporterScript(sc *rscript) (obs *robs) {
 	for _, on := range sc.forbid {
 		expectFail = expectFail || on
 	}
+	expectFail = expectFail || sc.preReadErrors() > 0
 	for _, s := range sc.steps {
 		if s.kind == "forbid" {
 			forbidMu.Lock()
@@ -915,6 +970,23 @@ func reporterCorpus() []*rscript {
 				steps: []rstep{{"break", ns1, 0}, {"delete", ns1, 0}, {"relist", ns1, 0}, {"update", sec(1, 1), 1}}},
 		)
 	}
+	// a status read that fails with an ordinary error (not a cancellation) is fatal:
+	// one error event, then the stop -- from AddFunc (new object, initial listing)
+	// and from UpdateFunc; a failing read of an UNWATCHED object is never attempted
+	for _, root := range []bool{true, false} {
+		l = append(l,
+			&rscript{label: "read-error:update", root: root, watched: []oid{sec(1, 1), cm(1, 1)},
+				pre: []preObj{{sec(1, 1), 1}, {sec(1, 2), 0}},
+				steps: []rstep{{"add", cm(1, 1), 0}, {"update", sec(1, 2), variantErr}, {"update", sec(1, 1), 0},
+					{"update", sec(1, 1), variantErr}, {"fail", oid{}, 0}, {"update", cm(1, 1), 1}, {"update", sec(1, 1), 2}}},
+			&rscript{label: "read-error:add", root: root, watched: []oid{sec(1, 1), sec(2, 1)},
+				steps: []rstep{{"add", sec(2, 1), 2}, {"add", sec(2, 2), variantErr}, {"add", sec(1, 1), variantErr}, {"fail", oid{}, 0},
+					{"delete", sec(2, 1), 0}}},
+			&rscript{label: "read-error:listing", root: root, watched: []oid{sec(1, 1), cm(1, 1)},
+				pre:   []preObj{{sec(1, 2), variantErr}, {sec(1, 1), variantErr}},
+				steps: []rstep{{"add", cm(1, 1), 1}}},
+		)
+	}
 	for _, root := range []bool{true, false} {
 		l = append(l,
 			&rscript{label: "one-forbidden", root: root, watched: []oid{cm(1, 1), sec(1, 1)}, forbid: map[int]bool{3: true},
@@ -1145,6 +1217,53 @@ func genBenignThenFatal(r *rand.Rand) *rscript {
 	return sc
 }
 
+// genReadError: plain objects of kinds served without a CRD, in namespaces whose
+// Namespace object is not watched (so every watch runs throughout); ordinary
+// mutations, failing reads of unwatched objects (never attempted), then ONE failing
+// read of a watched object through an add or an update: the fatal error is due.
+// Afterwards nothing is reported.
+func genReadError(r *rand.Rand) *rscript {
+	sc := &rscript{label: "read-error:generated", root: r.Intn(2) == 0}
+	pool := []oid{{2, 1, 1}, {3, 1, 1}, {3, 1, 2}, {3, 2, 1}, {5, 0, 1}, {2, 2, 2}}
+	r.Shuffle(len(pool), func(i, j int) { pool[i], pool[j] = pool[j], pool[i] })
+	nw := 2 + r.Intn(2)
+	sc.watched = append(sc.watched, pool[:nw]...)
+	exists := map[oid]bool{}
+	for _, id := range pool {
+		if r.Intn(3) == 0 {
+			sc.pre = append(sc.pre, preObj{id, r.Intn(nVariants)})
+			exists[id] = true
+		}
+	}
+	mut := func(id oid, v int) {
+		if exists[id] {
+			sc.steps = append(sc.steps, rstep{"update", id, v})
+		} else {
+			sc.steps = append(sc.steps, rstep{"add", id, v})
+			exists[id] = true
+		}
+	}
+	noise := func(n int) {
+		for ; n > 0; n-- {
+			id := pool[r.Intn(len(pool))]
+			switch {
+			case exists[id] && r.Intn(4) == 0:
+				sc.steps = append(sc.steps, rstep{"delete", id, 0})
+				exists[id] = false
+			case r.Intn(5) == 0 && id != pool[0] && id != pool[1] && (nw < 3 || id != pool[2]):
+				mut(id, variantErr) // unwatched: filtered before the read
+			default:
+				mut(id, r.Intn(nVariants))
+			}
+		}
+	}
+	noise(r.Intn(5))
+	mut(sc.watched[r.Intn(nw)], variantErr)
+	sc.steps = append(sc.steps, rstep{"fail", oid{}, 0})
+	noise(r.Intn(3))
+	return sc
+}
+
 // genGapScript: mutations of watched and unwatched objects of one kind while the
 // watch connections of that kind are broken, then a 410 re-list, then more
 // mutations; other kinds keep being observed normally.
@@ -1240,15 +1359,43 @@ func unschedulableScripts(tier string) []*rscript {
 			other := oid{kPod, 2, 1}
 			tick := rstep{kind: "tick"}
 			l = append(l,
-				&rscript{label: "unschedulable:stays", root: root, watched: []oid{pod, {3, 1, 1}},
-					steps: []rstep{{"add", pod, variantUnsched}, {"add", other, variantUnsched}, {"add", oid{3, 1, 1}, 0}, tick},
-					late:  map[oid][]string{pod: {"SFailed"}}},
+				// (a watched object that is merely InProgress -- Secret b, Reconciling -- gets no re-check)
+				// and neither does a pod that is Pending without an Unschedulable condition -- Pod c)
+				&rscript{label: "unschedulable:stays", root: root, watched: []oid{pod, {3, 1, 1}, {3, 1, 2}, {kPod, 1, 3}},
+					steps: []rstep{{"add", pod, variantUnsched}, {"add", other, variantUnsched}, {"add", oid{3, 1, 1}, 0},
+						{"add", oid{3, 1, 2}, 4}, {"add", oid{kPod, 1, 3}, variantPodPending}, tick},
+					late: map[oid][]string{pod: {"SFailed"}}},
 				&rscript{label: "unschedulable:scheduled-in-time", root: root, watched: []oid{pod},
 					steps: []rstep{{"add", pod, variantUnsched}, {"update", pod, variantPodReady}, tick}},
 				&rscript{label: "unschedulable:deleted-in-time", root: root, watched: []oid{pod},
 					steps: []rstep{{"add", pod, variantUnsched}, {"delete", pod, 0}, tick}},
 				&rscript{label: "unschedulable:cancelled-in-time", root: root, watched: []oid{pod},
 					steps: []rstep{{"add", pod, variantUnsched}, {"cancel", oid{}, 0}, tick}},
+			)
+		}
+	}
+	// "Gives unschedulable Pods (and objects that generate them) a grace period": a watched
+	// Deployment / ReplicaSet whose GENERATED pod (found by the status reader through the
+	// cluster reader, not watched itself) is unschedulable is re-read after the window and
+	// reported once more (its own status is still InProgress); with a scheduled pod there is
+	// no re-check.  After the four Pod families, so that the C08 side keeps its quick set.
+	for rep := 0; rep < n; rep++ {
+		for _, root := range []bool{true, false} {
+			pod, rs, dep := oid{kPod, 1, 1}, oid{kRS, 1, 1}, oid{kDeploy, 1, 1}
+			tick := rstep{kind: "tick"}
+			top := []oid{dep, rs}[(rep+b2i(root))%2]
+			l = append(l,
+				&rscript{label: "unschedulable:generated", root: root, watched: []oid{top},
+					steps: []rstep{{"add", pod, variantUnsched}, {"add", rs, 0}, {"add", dep, 0}, tick},
+					// the ReplicaSet reader folds a Failed pod into the ReplicaSet's own status; the
+					// Deployment's status is computed from the Deployment alone (observed on the real code)
+					late: map[oid][]string{top: {map[oid]string{dep: "SInProgress", rs: "SFailed"}[top]}}},
+				&rscript{label: "unschedulable:generated-scheduled", root: root, watched: []oid{top},
+					steps: []rstep{{"add", pod, variantPodReady}, {"add", rs, 0}, {"add", dep, 0}, tick}},
+				// a pod that BECOMES unschedulable through an update (UpdateFunc schedules the re-check)
+				&rscript{label: "unschedulable:by-update", root: root, watched: []oid{pod},
+					steps: []rstep{{"add", pod, variantPodReady}, {"update", pod, variantUnsched}, tick},
+					late:  map[oid][]string{pod: {"SFailed"}}},
 			)
 		}
 	}
@@ -1290,6 +1437,7 @@ func (sc *rscript) caseTerm(o *robs) (string, string) {
 			}
 		}
 	}
+	nFail += sc.preReadErrors()
 	for i := 0; i < nFail; i++ {
 		steps = append(steps, "SFail")
 	}
@@ -1416,6 +1564,9 @@ func runReporter(r *rand.Rand, tier, outDir string, sum *emit.Summary) error {
 	}
 	for i := 0; i < nRandom/6; i++ {
 		scripts = append(scripts, genGapScript(r))
+	}
+	for i := 0; i < nRandom/10; i++ {
+		scripts = append(scripts, genReadError(r))
 	}
 	// A panic in an informer goroutine normally kills the process (client-go's
 	// HandleCrash re-panics).  Keep the process alive so that the script gets its
